@@ -142,7 +142,7 @@ class DocGen:
         elif kind == "pending_rm":
             name, attrs = cfg.rm, ['name="other"']
         elif kind == "skip":
-            name, attrs = cfg.tl, [EXPIRED, "skip"]
+            name, attrs = cfg.tl, [EXPIRED, r.choice(["skip", "skip", "skip", "skip=''", 'skip="x"'])]
         else:
             name, attrs = "unregistered", [EXPIRED]
         if unwrap:
